@@ -48,7 +48,7 @@ func tokenize(body []byte) []htok {
 	}
 }
 
-var markerRE = regexp.MustCompile(`(?i)zq([A-N])q`)
+var markerRE = regexp.MustCompile(`(?i)zq([A-O])q`)
 
 func letterOf(s string) byte {
 	m := markerRE.FindStringSubmatch(s)
